@@ -361,12 +361,7 @@ func (r *runtimeState) scheduleLocked(from *thread) {
 			add(t)
 		}
 	}
-	for _, t := range r.threads {
-		if t.done || t.op == nil || !lazy(t) || t.op.kind != OpSleep {
-			continue
-		}
-		add(t)
-	}
+
 	for _, e := range r.envs {
 		if e.Enabled == nil || e.Enabled() {
 			enabled = append(enabled, Choice{Thread: -1, Env: e.Name, Label: "env " + e.Name})
@@ -382,6 +377,13 @@ func (r *runtimeState) scheduleLocked(from *thread) {
 		name := fmt.Sprintf("%s#%d(%s)", kind, tm.id, tm.d)
 		enabled = append(enabled, Choice{Thread: -1, Env: name, Label: "env " + name})
 		picks = append(picks, pick{env: &EnvEvent{Name: name, Fire: func() { r.fireTimerLocked(tm) }}})
+	}
+	// sleepers last: time passes for them only by an explicit choice
+	for _, t := range r.threads {
+		if t.done || t.op == nil || !lazy(t) || t.op.kind != OpSleep {
+			continue
+		}
+		add(t)
 	}
 	// live threads left?
 	live := 0
